@@ -55,16 +55,17 @@ def harnesses(tier, seed):
         hs.append(h("all", "FM", "slice", 4, 2, 1))
     else:
         wi = {"E", "M", "F", "MF"}  # the FMF type is only reachable as an opaque `impl Par`
+        heavy_ty = ("FL", "FLF")
         for ty in ("E", "M", "F", "MF", "FM", "FMF", "FL", "FLF"):
             terms = ["find", "first", "any", "all"] + (["find_with_index", "first_with_index"] if ty in wi else [])
             for term in terms:
-                for (n, t, c) in ((4, 2, 1), (4, 2, 2), (5, 3, 1), (5, 3, 2), (4, 2, 3)):
-                    if term in ("any", "all", "first", "first_with_index") and (n, t, c) not in ((4, 2, 1), (4, 2, 2)):
-                        continue
+                cfgs = [(4, 2, 1), (4, 2, 2)] if ty not in heavy_ty else [(4, 2, 1), (3, 2, 2)]
+                if term == "find" and ty not in heavy_ty:
+                    cfgs += [(5, 3, 1), (5, 2, 3)]
+                for (n, t, c) in cfgs:
                     hs.append(h(term, ty, "slice", n, t, c))
             for src in ("vec", "range", "sched", "schedx"):
-                for c in (1, 2):
-                    hs.append(h("find", ty, src, 4, 2, c))
-            hs.append(h("find", ty, "slice", 4, 2, "auto", "ChunkSize::Auto"))
-            hs.append(h("find", ty, "slice", 4, 2, "min2", "ChunkSize::Min(NonZeroUsize::new(2).unwrap())"))
+                hs.append(h("find", ty, src, 4 if ty not in heavy_ty else 3, 2, 1))
+            if ty not in heavy_ty:
+                hs.append(h("find", ty, "slice", 4, 2, "min2", "ChunkSize::Min(NonZeroUsize::new(2).unwrap())"))
     return hs
